@@ -231,65 +231,164 @@ def check_index(P, ctx):
 
 # ---------------------------------------------------------------------------
 
+class ShiftMismatch(Exception):
+    pass
+
+
+def eval_shift(P, T, op):
+    """push_at / pop_at of Array and Tuple evaluated (cint) on instances of 1..4 elements for every valid index, negative ones included.
+    memmove is carried out on the model (whole element slots for Array, words for Tuple); afterwards the storage must hold exactly the
+    abstract sequence with the element removed / the new one inserted at the position.  Returns (mismatch, unsupported, cases)."""
+    from . import cint, absmodel
+    SELF = absmodel.SELF
+    fn = P.fn(P.slot(T, 'Push', op))
+    bad, unsup, ncase = None, None, 0
+    OBJ = 31337
+    for n in range(0 if op == 'push_at' else 1, 5):
+        valid = list(range(n + 1)) if (op == 'push_at' and T == 'Array') else list(range(n))
+        keys = [(i, i) for i in valid] + [((i - n - 1) if (op == 'push_at' and T == 'Array') else (i - n), i) for i in valid]
+        for key, pos in keys:
+            M = absmodel.build(P, T, n)
+            atoms = M.atoms
+            events = []
+            if T == 'Array':
+                DATA = atoms[('elem', 'self', 0, 'data')]
+                step = absmodel.sub(P, 'Array_Step', [SELF], atoms)
+                hdr = M.elems[0] - DATA if n else absmodel.sub(P, 'Array_Item', [SELF, 0], atoms) - DATA
+                # capacity is exact: the slots the count guarantees (after the reservation for the new element on push_at), nothing more
+                slots = ['e%d' % k for k in range(n)] + (['free0'] if op == 'push_at' else [])
+                atoms[('elem', 'self', 0, 'nslots')] = len(slots)
+
+                def slot_of(addr, what):
+                    off = addr - DATA
+                    if off % step != 0 or not 0 <= off // step <= len(slots):
+                        raise ShiftMismatch('%s %d bytes into the storage: not an element boundary inside the reserved slots' % (what, off))
+                    return off // step
+            else:
+                words = ['e%d' % k for k in range(n)] + ['TERM'] + ['junk%d' % k for k in range(3)]
+                for k in range(len(words)):
+                    atoms[('elem', 'items', k, None)] = (M.elems[k] if k < n else (absmodel.TERM if k == n else 6660 + k))
+                cap = [n + 1]
+
+            def call(nm, e, it):
+                if nm == 'c_int':
+                    return key
+                if nm == 'header':
+                    return ('ep', 'hdr', 0)
+                if nm in ('destruct',):
+                    events.append(('destruct', it.ev(e[2][0])))
+                    return it.ev(e[2][0])
+                if nm in ('Array_Reserve_More', 'Array_Reserve_Less'):
+                    return 0
+                if nm == 'Array_Alloc':
+                    k = it.ev(e[2][1])
+                    if not 0 <= k < len(slots):
+                        raise ShiftMismatch('initialises slot %d' % k)
+                    slots[k] = 'fresh'
+                    return 0
+                if nm == 'assign':
+                    events.append(('assign', it.ev(e[2][0]), it.ev(e[2][1])))
+                    return it.ev(e[2][0])
+                if nm == 'realloc':
+                    if T == 'Tuple':
+                        sz = it.ev(e[2][1])
+                        if sz % 8:
+                            raise ShiftMismatch('realloc to %d bytes' % sz)
+                        cap[0] = sz // 8
+                        return it.ev(e[2][0])
+                    return it.ev(e[2][0])
+                if nm in ('memmove', 'memcpy'):
+                    d, s_, ln = it.ev(e[2][0]), it.ev(e[2][1]), it.ev(e[2][2])
+                    if T == 'Array':
+                        if not (isinstance(d, int) and isinstance(s_, int)):
+                            raise cint.NoEval('memmove operands')
+                        if ln % step:
+                            raise ShiftMismatch('moves %d bytes: not a whole number of elements' % ln)
+                        k = ln // step
+                        ds, ss = slot_of(d, 'moves to'), slot_of(s_, 'moves from')
+                        if k and (ds + k > len(slots) or ss + k > len(slots)):
+                            raise ShiftMismatch('moves %d elements from slot %d to slot %d: beyond the reserved slots' % (k, ss, ds))
+                        if nm == 'memcpy' and k and abs(ds - ss) < k:
+                            raise ShiftMismatch('memcpy of overlapping ranges')
+                        chunk = slots[ss:ss + k]
+                        slots[ds:ds + k] = chunk
+                    else:
+                        if not (isinstance(d, tuple) and isinstance(s_, tuple) and d[1] == 'items' and s_[1] == 'items'):
+                            raise cint.NoEval('memmove operands')
+                        if ln % 8:
+                            raise ShiftMismatch('moves %d bytes: not whole words' % ln)
+                        k = ln // 8
+                        if k and (d[2] < 0 or s_[2] < 0 or d[2] + k > cap[0] or s_[2] + k > cap[0]):
+                            raise ShiftMismatch('moves %d words from index %d to index %d: the block holds %d' % (k, s_[2], d[2], cap[0]))
+                        if nm == 'memcpy' and k and abs(d[2] - s_[2]) < k:
+                            raise ShiftMismatch('memcpy of overlapping ranges')
+                        chunk = [it.atoms[('elem', 'items', s_[2] + j, None)] for j in range(k)]
+                        for j in range(k):
+                            it.atoms[('elem', 'items', d[2] + j, None)] = chunk[j]
+                    return d
+                raise cint.NoEval('call %s' % nm)
+            atoms[('elem', 'hdr', 0, 'alloc')] = P.enums.get('AllocHeap', 3)
+            it = cint.CInt(P, fn, atoms=atoms, call=call, recurse=True, mem=M.mem, max_steps=3000)
+            it.atoms = atoms
+            label = '%s of %d elements, %s with key %d' % (T, n, op, key)
+            try:
+                r = it.run([SELF, 9000] if op == 'pop_at' else [SELF, OBJ, 9000])
+            except (ShiftMismatch, absmodel.Mismatch) as x:
+                bad = bad or '%s: %s' % (label, x)
+                continue
+            ncase += 1
+            if r[0] == 'stuck':
+                unsup = unsup or '%s: %s at %s' % (label, r[1], P.cfg(fn).describe(r[2]))
+                continue
+            if r[0] != 'ret':
+                bad = bad or '%s: a valid index is refused (%s)' % (label, r[1][1] if isinstance(r[1], tuple) else r[1])
+                continue
+            if T == 'Array':
+                cnt = atoms[('elem', 'self', 0, 'nitems')]
+                if op == 'pop_at':
+                    want = ['e%d' % k for k in range(n) if k != pos]
+                    okd = ('destruct', M.elems[pos]) in events
+                else:
+                    want = ['e%d' % k for k in range(pos)] + ['fresh'] + ['e%d' % k for k in range(pos, n)]
+                    tgt = DATA + step * pos + hdr
+                    okd = ('assign', tgt, OBJ) in events
+                got = slots[:cnt] if 0 <= cnt <= len(slots) else None
+                if got != want:
+                    bad = bad or '%s: the first %s slots hold %s, the sequence is %s' % (label, cnt, got, want)
+                elif not okd:
+                    bad = bad or '%s: %s' % (label, 'the removed element is not destructed' if op == 'pop_at' else 'the new element is not assigned into its slot')
+            else:
+                got = []
+                k = 0
+                while k < cap[0] + 2 and atoms.get(('elem', 'items', k, None)) != absmodel.TERM:
+                    got.append(atoms.get(('elem', 'items', k, None)))
+                    k += 1
+                want = [M.elems[j] for j in range(n) if j != pos] if op == 'pop_at' else M.elems[:pos] + [OBJ] + M.elems[pos:]
+                if got != want or k >= cap[0]:
+                    bad = bad or '%s: the items up to Terminal are %s, the sequence is %s%s' % (label, got, want, '' if k < cap[0] else ' (no Terminal inside the block)')
+    return bad, unsup, ncase
+
+
 def check_shift_extent(P, ctx):
     rule = 'C04.shift-extent'
-    step = poly.Poly.atom('arg0->tsize') + poly.Poly.atom('H')
-    ni = poly.Poly.atom('arg0->nitems')
-    for fname, dst_k, src_k, when in (('Array_Pop_At', 0, 1, 'before'), ('Array_Push_At', 1, 0, 'after')):
-        fn = P.fn(fname)
-        g = P.cfg(fn)
+    for T, op, fname, what in (('Array', 'pop_at', 'Array_Pop_At', 'the memmove shifts exactly the tail behind position i by one slot (offsets and length in units of the element step), with the count still including the removed element'),
+                               ('Array', 'push_at', 'Array_Push_At', 'the memmove shifts exactly the tail behind position i by one slot (offsets and length in units of the element step), with the count already including the new one'),
+                               ('Tuple', 'pop_at', 'Tuple_Pop_At', 'the memmove shifts the items behind position i together with the Terminal sentinel by one slot'),
+                               ('Tuple', 'push_at', 'Tuple_Push_At', 'the memmove shifts the items behind position i together with the Terminal sentinel by one slot')):
+        fn = P.fn(P.slot(T, 'Push', op))
         ctx.fn(fn)
-        N = util.Norm(P, fn, inline=True)
-        mm = [(n, c) for n in g.live() if n['expr'] is not None for c in ir.calls(n['expr']) if ir.callee_name(c) == 'memmove']
-        ok = len(mm) == 1
-        detail = []
-        if ok:
-            n, c = mm[0]
-            d, s_, ln = (poly.from_expr(N.canon(a)) for a in c[2])
-            base = poly.Poly.atom('arg0->data')
-            i = poly.Poly.atom('i')
-            want_d = base + step * (i + poly.Poly.const(dst_k))
-            want_s = base + step * (i + poly.Poly.const(src_k))
-            want_l = step * (ni - poly.Poly.const(1) - i)
-            ok = d == want_d and s_ == want_s and ln == want_l
-            detail = ['dst %r' % (d - base), 'src %r' % (s_ - base), 'len %r' % ln, 'tail extent must be %r' % want_l]
-            cnt = [x for x in g.live() if x['expr'] is not None and N.canon(x['expr']) in (('un', 'post++', ('arrow', ('param', 0), 'nitems')), ('un', 'post--', ('arrow', ('param', 0), 'nitems')),
-                                                                                          ('un', 'pre++', ('arrow', ('param', 0), 'nitems')), ('un', 'pre--', ('arrow', ('param', 0), 'nitems')))]
-            if len(cnt) != 1:
-                ok = False
-            elif when == 'before':
-                ok = ok and g.must_pass(cnt[0]['id'], [n['id']]) and n['id'] not in g.reach_from(cnt[0]['id'])
-            else:
-                ok = ok and g.must_pass(n['id'], [cnt[0]['id']])
-        ctx.check(ok, rule, fname, site(fn), 'the memmove shifts exactly the tail behind position i by one slot (offsets and length in units of the element step), with the count %s' % (
-            'still including the removed element' if when == 'before' else 'already including the new one'), detail)
-    W = poly.Poly.const(8)
-    for fname, dst_k, src_k, extra in (('Tuple_Pop_At', 0, 1, 0), ('Tuple_Push_At', 1, 0, 1)):
-        fn = P.fn(fname)
-        g = P.cfg(fn)
-        ctx.fn(fn)
-        N = util.Norm(P, fn, inline=False)
-        mm = [(n, c) for n in g.live() if n['expr'] is not None for c in ir.calls(n['expr']) if ir.callee_name(c) == 'memmove']
-        ok = len(mm) == 1
-        detail = []
-        if ok:
-            n, c = mm[0]
-
-            def slot(e):
-                e = N.canon(e)
-                if e[0] == 'un' and e[1] == '&' and e[2][0] == 'idx' and e[2][1] == ('arrow', ('param', 0), 'items'):
-                    return poly.from_expr(e[2][2])
-                return None
-            d, s_ = slot(c[2][0]), slot(c[2][1])
-            ln = poly.from_expr(N.canon(c[2][2]))
-            i = poly.Poly.atom('i')
-            nn = poly.Poly.atom('nitems')
-            ok = d == i + poly.Poly.const(dst_k) and s_ == i + poly.Poly.const(src_k) and ln == W * (nn - i + poly.Poly.const(extra))
-            detail = ['dst items[%r]' % d, 'src items[%r]' % s_, 'len %r' % ln]
-            # nitems is the length measured on entry
-            nd = [x for x in g.live() if x.get('decl') and x['decl']['name'] == 'nitems']
-            ok = ok and len(nd) == 1 and N.canon(nd[0]['decl']['init']) == ir.canon(('call', ('func', 'Tuple_Len'), (('param', 't', 0),)))
-        ctx.check(ok, rule, fname, site(fn), 'the memmove shifts the items behind position i together with the Terminal sentinel by one slot', detail)
+        try:
+            bad, unsup, ncase = eval_shift(P, T, op)
+        except Exception as x:
+            from . import absmodel
+            if not isinstance(x, absmodel.Unsupported):
+                raise
+            bad, unsup, ncase = None, str(x), 0
+        ctx.stats['paths'] += ncase
+        if unsup and not bad:
+            ctx.undecided(rule, fname, site(fn), 'leaves the evaluated fragment: ' + unsup)
+        else:
+            ctx.check(bad is None, rule, fname, site(fn), what + ' (evaluated for 1..4 elements, every valid index: the storage afterwards holds the expected sequence)', [bad] if bad else None)
     ctx.floor(rule, 4)
 
 
@@ -753,7 +852,7 @@ def run(ctx, load):
     for k in list(ctx.floors):
         if k[0].startswith('C10.'):
             ctx.floors.pop(k)
-    ctx.floor('C04.sort-exchanges-whole-elements', 2)
+    ctx.floor('C04.sort-exchanges-whole-elements', 1)
 
 
 EXPLANATION = (
